@@ -367,14 +367,20 @@ def sameRes (ns : List MNode) (u v : Int) : Int :=
 def toGraph (ns : List MNode) (es : List (Int × Int)) : Iso.Graph :=
   { nodes := ns.map (fun n => (n.key, 0)), edges := es.map (fun e => (e.1, e.2, sameRes ns e.1 e.2)) }
 
-def nodePred (mol pat : List MNode) : Iso.NodePred := fun p t =>
+def hasLoop (es : List (Int × Int)) (k : Int) : Bool := es.contains (k, k)
+
+/-- `_old_atomname_match` on the two nodes; a node with a self-loop is matched by a node with a
+self-loop only (the matcher is an INDUCED subgraph matcher: VF2 compares the number of self-loops;
+`edge_matcher` on a loop compares a resid with itself and never objects) -/
+def nodePred (mol : List MNode) (medges : List (Int × Int)) (pat : List MNode) (pedges : List (Int × Int)) :
+    Iso.NodePred := fun p t =>
   match pat.find? (fun n => n.key == p), mol.find? (fun n => n.key == t) with
-  | some pn, some tn => oldAtomnameMatch tn.attrs pn.attrs
+  | some pn, some tn => oldAtomnameMatch tn.attrs pn.attrs && (hasLoop pedges p == hasLoop medges t)
   | _, _ => false
 
 /-- every induced, residue-boundary-respecting embedding of `block_from` into the molecule -/
 def refMatches (mol : List MNode) (medges : List (Int × Int)) (pat : List MNode) (pedges : List (Int × Int)) :
     List Iso.Map :=
-  Iso.allIsosP (toGraph mol medges) (toGraph pat pedges) (nodePred mol pat)
+  Iso.allIsosP (toGraph mol medges) (toGraph pat pedges) (nodePred mol medges pat pedges)
 
 end C01
